@@ -102,6 +102,11 @@ class Report:
         """Instance floor: a rule that matches fewer sites than confirmed by hand is broken."""
         self.floors[name] = (count, minimum)
         self.counts[name] = count
+        if count < minimum and any(not o.ok for o in self.obs):
+            # obligations were already refuted: the violation is reported as such (exit 1); that a rule then also finds fewer
+            # sites than usual is the same change seen twice, not a broken analysis
+            self.notes.append(f"instance floor undercut after refuted obligations: {name} matched {count} site(s), expected >= {minimum}")
+            return
         if count < minimum:
             raise AnalysisError(
                 f"instance floor undercut: {name} matched {count} site(s), expected >= {minimum}"
